@@ -47,6 +47,10 @@ func runC10(r *R) {
 	r.Sample(sp.describe())
 	out := runHTTPFaults(r, sp)
 	res := out.Res
+	if len(out.Runaway) > 0 {
+		r.Fail("redirect-loop-followed-without-bound", "the target answers entries %v with a redirect to the same URI; with redirect=%v the client followed it for more than 64 hops per shot (a shot inside such a loop never ends: no sample, the instance never takes its next ammo)", out.Runaway, sp.FollowRedirects)
+		return
+	}
 	if sp.Inst >= 2 || faults {
 		r.NonTrivial()
 	}
